@@ -107,6 +107,24 @@ def build(spec):
         elif kind == "header_only_below":
             b = Block(rng.choice(REAL_VERSIONS), rbytes(rng, 32), rng.getrandbits(31), 0x1D00FFFF, rng.getrandbits(32), [], merkle=rbytes(rng, 32))
             header_only.append(HeaderOnly(b, 0, VALID_TREE, 0))
+        elif kind in ("undo_only_occupied", "undo_only_beyond"):
+            # undo data on disk, block data not (HAVE_UNDO without HAVE_DATA), validity below VALID_CHAIN: not a block that can be delivered.
+            # Its key sorts after the active block's, its undo position points at a real block of blk00000.dat
+            h = rng.randint(1, tip) if kind == "undo_only_occupied" else tip + 1
+            b = competitor_block(rng, coin, byh[h - 1].hash, h, "after" if h in byh else None, byh[h].hash if h in byh else None)
+            header_only.append(HeaderOnly(b, h, rng.choice([VALID_TREE, VALID_TRANSACTIONS]) | HAVE_UNDO | rng.choice([0, OPT_WITNESS]), len(b.txs), nfile=0, undo_pos=8))
+        elif kind == "data_beyond_gap":
+            # a block downloaded ahead of time (headers-first sync): data on disk at tip+2 / tip+3, the heights in between have no data
+            gap = rng.randint(2, 3)
+            prev = byh[tip].hash
+            for k in range(1, gap):
+                hb = Block(rng.choice(REAL_VERSIONS), prev, rng.getrandbits(31), 0x1D00FFFF, rng.getrandbits(32), [], merkle=rbytes(rng, 32))
+                if rng.random() < 0.7:
+                    header_only.append(HeaderOnly(hb, tip + k, VALID_TREE, 0))
+                prev = hb.hash
+            b = competitor_block(rng, coin, prev, tip + gap, None, None)
+            competitors.append((tip + gap, b))
+            placements.append(Placement(b, tip + gap, file=1, status=rng.choice([VALID_TRANSACTIONS | HAVE_DATA, ACTIVE])))
         elif kind == "failed_no_data":
             h = rng.randint(1, tip + 1)
             b = Block(rng.choice(REAL_VERSIONS), byh[h - 1].hash, rng.getrandbits(31), 0x1D00FFFF, rng.getrandbits(32), [], merkle=rbytes(rng, 32))
@@ -227,12 +245,16 @@ def plan(chk):
     n = 0
     extras_pool = ["header_only_occupied", "header_only_beyond", "header_only_below", "failed_no_data"]
 
+    harmless_only = ["undo_only_occupied", "undo_only_beyond", "data_beyond_gap"]
+
     def add(**kw):
         nonlocal n
         n += 1
         kw.setdefault("coin", COIN_NAMES[n % 8])
         kw.setdefault("callbacks", CALLBACKS if chk.thorough else [CALLBACKS[0], CALLBACKS[1 + n % 4]])
         kw.setdefault("extras", [rng.choice(extras_pool) for _ in range(rng.randint(0, 3))])
+        if kw["cls"] == "mixed_harmless":
+            kw["extras"] = kw["extras"] + rng.sample(harmless_only, rng.randint(1, 2))
         specs.append(dict(case="case", seed=chk.seed, n=n, **kw))
 
     reps = 30 if chk.thorough else 2
@@ -240,7 +262,9 @@ def plan(chk):
         # benign indexes: every extra kind alone and mixed
         for ex in extras_pool:
             add(cls="none", pos="-", order="-", extras=[ex] * rng.randint(1, 3))
-        add(cls="none", pos="-", order="-", extras=extras_pool * 2)
+        for ex in harmless_only:
+            add(cls="none", pos="-", order="-", extras=[ex])
+        add(cls="none", pos="-", order="-", extras=extras_pool * 2 + harmless_only)
         add(cls="none", pos="-", order="-", extras=[])
         for _ in range(4):
             add(cls="mixed_harmless", pos="-", order="-", ranges="all" if chk.thorough else 12)
